@@ -259,8 +259,10 @@ static void hwv_dump_insert(FILE *f, hwloc_topology_t t, int when, hwloc_obj_t r
   hwv_map_init(&m);
   hwv_enum(&m, hwloc_get_root_obj(t));
   fprintf(f, "T flags=%lu depth=0 nobj=", hwloc_topology_get_flags(t));
-  if (when == 0 || (result != obj)) hwv_enum(&m, obj);   /* still unlinked: append it */
-  fprintf(f, "%u phase=%d insroot=", m.n, when ? 11 : 10);
+  /* when: 0/1 before/after hwloc___insert_object_by_cpuset, 2/3 before/after hwloc__find_insert_memory_parent
+   * (after: root = the returned parent), 4/5 before/after hwloc___attach_memory_object_by_nodeset */
+  if ((when != 1 && when != 5) || (result != obj)) hwv_enum(&m, obj);   /* still unlinked: append it */
+  fprintf(f, "%u phase=%d insroot=", m.n, 10 + when);
   hwv_pid(f, &m, root);
   fputs(" ins=", f); hwv_pid(f, &m, obj);
   fputs(" res=", f); hwv_pid(f, &m, result);
